@@ -100,13 +100,13 @@ CIntTypesQuick ==
   << I(B(0), B(0)), I(B(0), B(7)), I(B(0), B(255)), I(B(0), B(256)), I(B(1), B(256)), I(B(0), B(65536)),
      I(B(0), Pred(P32)), I(B(0), P32), I(B(0), Pred(CP64)),
      I(B(-128), B(127)), I(B(-129), B(127)), I(B(-1), B(255)), I(B(-2), B(4)), I(B(-32768), B(32767)),
-     I(Neg(P31), Pred(P31)), I(Neg(CP63), Pred(CP63)) >>
+     I(Neg(P31), Pred(P31)), I(Pred(Neg(P31)), B(0)), I(Neg(CP63), Pred(CP63)) >>
 
 CIntTypesRich ==
   CIntTypesQuick \o
   << I(B(0), B(1)), I(B(0), B(254)), I(B(5), B(260)), I(B(0), B(65535)), I(B(1), B(65536)), I(B(2005), B(2007)),
      I(B(1), Pred(CP64)), I(B(0), Pred(CP63)), I(B(-1), B(0)), I(B(-128), B(128)), I(B(-128), B(0)),
-     I(B(-32769), B(32767)), I(B(-1), B(65535)), I(B(-32768), B(32768)), I(Pred(Neg(P31)), B(0)),
+     I(B(-32769), B(32767)), I(B(-1), B(65535)), I(B(-32768), B(32768)),
      I(B(-1), Pred(P32)), I(Neg(P31), P31), I(Neg(CP63), B(0)), I(B(-1), Pred(CP63)), I(B(-128), B(65407)) >>
 
 CEnumTypes ==
